@@ -725,6 +725,40 @@ func ruleDictProvenance(c *Check, p *Program, rule string) {
 			}
 		}
 	})
+	// the decoder may be picked through a function value: decode := UncompressBlock; if raw { decode = stored }
+	for _, ci := range callsIn(un) {
+		ph, isPhi := ci.Common().Value.(*ssa.Phi)
+		if !isPhi || ci.Common().IsInvoke() || len(ci.Common().Args) < 3 {
+			continue
+		}
+		args := ci.Common().Args
+		for i, e := range ph.Edges {
+			f, isFn := e.(*ssa.Function)
+			if !isFn {
+				continue
+			}
+			if f.Pkg != nil && strings.HasSuffix(f.Pkg.Pkg.Path(), pkgBlock) && f.Name() == "UncompressBlock" {
+				c.Sites++
+				ok := pDst != nil && args[2] == pDict && loadField(args[0]) == "FrameDataBlock.data" && args[1] == pDst
+				c.Cond(ok, rule, "Uncompress#dict-forwarded", p.InstrPos(ci), "Uncompress forwards (block bytes, destination, dictionary) unchanged to the block decoder", "UncompressBlock(b.data, dst, dict) through a function value", "arguments of UncompressBlock are not (b.data, dst, dict)")
+				continue
+			}
+			raw := false
+			for _, a := range edgeAtoms(ph.Block().Preds[i], ph.Block()) {
+				if a.Kind == "call" && strings.HasSuffix(a.Name, "Uncompressed") && a.Val {
+					raw = true
+				}
+			}
+			if !raw || len(f.Params) < 2 || pDst == nil || args[1] != pDst || loadField(args[0]) != "FrameDataBlock.data" {
+				continue
+			}
+			allInstrs(f, func(in ssa.Instruction) {
+				if cc, ok := isBuiltinCall(in, "copy"); ok && cc.Args[0] == f.Params[1] && cc.Args[1] == f.Params[0] {
+					okRaw = true
+				}
+			})
+		}
+	}
 	c.Cond(okRaw, rule, "Uncompress#raw-copy", p.Pos(un.Pos()), "a stored block is copied verbatim into the destination exactly when its raw flag is set", "copy(dst, b.data) under Uncompressed()", "raw-block copy missing or not governed by the raw flag")
 }
 
